@@ -82,6 +82,14 @@ type c01cfg struct {
 	pre     string // absent | active | rollout
 	scripts []pscript
 	clients int
+	shortT  bool // deploy timeout 1.3s, drain timeout 4.7s (instead of 5.3s / 2.1s): the two must not be confused
+}
+
+func (c c01cfg) timeouts() (time.Duration, time.Duration) {
+	if c.shortT {
+		return 1300 * time.Millisecond, 4700 * time.Millisecond
+	}
+	return vT, vD
 }
 
 func (c c01cfg) String() string {
@@ -89,7 +97,11 @@ func (c c01cfg) String() string {
 	for _, s := range c.scripts {
 		n = append(n, s.name)
 	}
-	return fmt.Sprintf("cmd=%s pre=%s targets=[%s] clients=%d", c.cmd, c.pre, strings.Join(n, ","), c.clients)
+	r := fmt.Sprintf("cmd=%s pre=%s targets=[%s] clients=%d", c.cmd, c.pre, strings.Join(n, ","), c.clients)
+	if c.shortT {
+		r += " T=1.3s D=4.7s"
+	}
+	return r
 }
 
 func c01Configs(tier string) []c01cfg {
@@ -103,7 +115,11 @@ func c01Configs(tier string) []c01cfg {
 	for _, x := range cps {
 		// n = 1: every script
 		for _, s := range scripts {
-			cfgs = append(cfgs, c01cfg{x.cmd, x.pre, []pscript{s}, 1})
+			cfgs = append(cfgs, c01cfg{x.cmd, x.pre, []pscript{s}, 1, false})
+			// deploy timeout shorter than the drain timeout: scripts turning healthy between the two
+			if s.firstOK >= 0 && s.firstOK <= 2*vI {
+				cfgs = append(cfgs, c01cfg{x.cmd, x.pre, []pscript{s}, 1, true})
+			}
 		}
 		// n = 2: full product in thorough; in quick "ok" x every script and the
 		// bad x bad diagonal
@@ -120,13 +136,13 @@ func c01Configs(tier string) []c01cfg {
 				if tier == "quick" && x.pre == "rollout" && !(i == 0 || j == 0) {
 					continue
 				}
-				cfgs = append(cfgs, c01cfg{x.cmd, x.pre, []pscript{a, b}, 1})
+				cfgs = append(cfgs, c01cfg{x.cmd, x.pre, []pscript{a, b}, 1, false})
 			}
 		}
 		// n = 3: exactly one bad target in each position, and all ok
 		if tier != "quick" || x.pre == "active" {
 			ok := scripts[0]
-			cfgs = append(cfgs, c01cfg{x.cmd, x.pre, []pscript{ok, ok, ok}, 1})
+			cfgs = append(cfgs, c01cfg{x.cmd, x.pre, []pscript{ok, ok, ok}, 1, false})
 			for _, s := range scripts[1:] {
 				if tier == "quick" && !(strings.HasPrefix(s.name, "never-500") || s.name == "1x500-then-ok" || s.name == "ok-at-T+0.1") {
 					continue
@@ -134,7 +150,7 @@ func c01Configs(tier string) []c01cfg {
 				for pos := 0; pos < 3; pos++ {
 					sc := []pscript{ok, ok, ok}
 					sc[pos] = s
-					cfgs = append(cfgs, c01cfg{x.cmd, x.pre, sc, 1})
+					cfgs = append(cfgs, c01cfg{x.cmd, x.pre, sc, 1, false})
 				}
 			}
 		}
@@ -190,10 +206,16 @@ func c01Scenario(c c01cfg) *Scenario {
 		wg.Add(1)
 		vsched.GoTagged("cmd", func() {
 			defer wg.Done()
+			T, D := c.timeouts()
 			if c.cmd == "deploy" {
-				w.Deploy(deployArgs("s1", newNames, []string{host}, nil))
+				a := deployArgs("s1", newNames, []string{host}, nil)
+				a.DeployTimeout, a.DrainTimeout = T, D
+				w.Deploy(a)
 			} else {
-				w.RolloutDeploy("s1", newNames)
+				w.runCmd("rollout-deploy", fmt.Sprintf("s1 targets=%v", newNames), func() error {
+					var reply bool
+					return w.Cmd.RolloutDeploy(RolloutDeployArgs{Service: "s1", TargetURLs: newNames, DeployTimeout: T, DrainTimeout: D}, &reply)
+				})
 			}
 			// right after the return, on the same thread
 			w.Do(ReqSpec{ID: "post-plain", Host: host})
@@ -284,7 +306,8 @@ func c01Scenario(c c01cfg) *Scenario {
 				break
 			}
 			at, ok := firstOKAt[n]
-			if (!ok || at >= cmd.Start+vT) && (cmd.Err == nil || !errors.Is(cmd.Err, ErrorTargetFailedToBecomeHealthy)) {
+			cT, _ := c.timeouts()
+			if (!ok || at >= cmd.Start+cT) && (cmd.Err == nil || !errors.Is(cmd.Err, ErrorTargetFailedToBecomeHealthy)) {
 				vs = append(vs, Violation{"C01", "no-failure-despite-unhealthy-target", fmt.Sprintf("%s answered no 2xx probe within the deploy timeout but %s returned %v", n, cmd.Name, cmd.Err)})
 				break
 			}
